@@ -590,6 +590,32 @@ def r14_location_guarded(run, F):
     run.floor("R14-LOCATION-GUARDED", 3, "guarded location() calls in the analyzers (function_calls, constness)")
 
 
+def r16_structures_forward_declared(run, F):
+    """A structure type is looked up by name when another declaration mentions it (`LLVMGetTypeByName`), and a NULL type handed on
+    to LLVM ends the compiler with a segmentation fault.  Structures of the same containment depth are generated in source order,
+    so the user of `&Owner` may come before `struct Owner;`: every structure of a group is forward declared before the group is
+    generated.  scoper::get_structure_name answers Some(name) for every Declaration::Structure -- no guard, no flag -- and the
+    compiler forward declares each name it answers."""
+    b = F.body("alpha::scoper::get_structure_name")
+    ms = hirq.matches_on_type(F.lib, b["hir"], "common::Declaration", min_alts=4)
+    run.require(len(ms) == 1, "get_structure_name: match on the declaration not found")
+    arms = hirq.arm_for(ms[0], "Declaration::Structure")
+    ok = len(arms) >= 1
+    for a in arms:
+        body = hirq.unwrap_trivial(a["body"])
+        some = body.get("k") == "Call" and (hirq.callee(body) or "").endswith("::Some")
+        ok = ok and some and a.get("guard") is None
+    run.ob("R16-STRUCTURES-FORWARD-DECLARED", "get_structure_name", ok, F.where(b, arms[0] if arms else None),
+           "every structure has a name to forward declare: the Structure arm(s) of get_structure_name answer Some(..) unconditionally (%d arm(s), guards: %s)" % (
+               len(arms), [a.get("guard") is not None for a in arms]))
+    cands = [bb for p, bb in F.lib.bodies.items() if p.startswith("alpha::Compiler::") and "hir" in bb and
+             any((hirq.callee(c) or "").endswith("Generator::forward_declare_structure") for c in hirq.calls(bb["hir"]))]
+    run.require(len(cands) >= 1, "no caller of Generator::forward_declare_structure in Compiler")
+    uses = any(any((x.get("res") or "") == "alpha::scoper::get_structure_name" or (hirq.callee(x) or "") == "alpha::scoper::get_structure_name" for x in walk(bb["hir"])) for bb in cands)
+    run.ob("R16-STRUCTURES-FORWARD-DECLARED", "forward declaration loop", uses, F.where(cands[0]),
+           "the function that forward declares structures to the generator takes the names from get_structure_name")
+
+
 def check(run):
     F = run.facts("B")
     # diagnostics planted in the later parts of a statement only surface if the resolver merges the errors of all parts (shared with C06.R7)
@@ -600,6 +626,7 @@ def check(run):
     from props import c15 as _c15
     _c15.r15_counters_bounded_in_loop(run, F, part="/alpha/", floor=1)
     r14_location_guarded(run, F)
+    r16_structures_forward_declared(run, F)
     # later stages assert well-formed types instead of diagnosing them: every type position must parse through the check (C11.R7)
     from props import c11 as _c11
     _c11.r7_wellformed_at_every_position(run, F)
